@@ -23,6 +23,7 @@ type RPC struct {
 	WantResp bool // SendRequest (true) or SendMessage (false)
 	CtxLive  bool // the caller's context was live when the call arrived
 	SentAt   time.Duration
+	SentStep int
 
 	Done      bool
 	DoneStep  int
@@ -57,7 +58,7 @@ func keyTag(k []byte) string {
 }
 
 func (m *Sender) park(ctx context.Context, p peer.ID, req *pb.Message, want bool) (*pb.Message, error) {
-	r := &RPC{To: p, Req: proto.Clone(req).(*pb.Message), WantResp: want, CtxLive: ctx.Err() == nil, SentAt: m.S.Now()}
+	r := &RPC{To: p, Req: proto.Clone(req).(*pb.Message), WantResp: want, CtxLive: ctx.Err() == nil, SentAt: m.S.Now(), SentStep: m.S.Steps}
 	m.mu.Lock()
 	r.N = len(m.Log)
 	m.Log = append(m.Log, r)
